@@ -60,6 +60,10 @@ CORPUS = [
     "Select(ds, lambda e: Select(Select(e.jets, lambda j: (j, e)), lambda e: (lambda: 1000)() + e[0].pt + e[1].met))",
     # F18
     "{'a': 1, 'a': 2}.a", "{'a': 1, 'a': 2}['a']", "{1: 'x', True: 'y'}[1]",
+    # a spread mapping hides every entry written before it
+    "Select(ds, lambda e: {'a': e.a, **e.d}['a'])", "Select(ds, lambda e: {**e.d, 'a': e.a}['a'])", "Select(ds, lambda e: {'a': e.b, **e.d}.a)",
+    "Select(Select(ds, lambda e: {'a': e.b, **e.d}), lambda t: t['a'] + t.a)", "Where(Select(ds, lambda e: {'a': e.b, **e.d}), lambda t: t.a > 0)",
+    "Select(Select(ds, lambda e: ({'a': e.b, **e.d}, e.met)), lambda t: t[0]['a'] + t[1])",
     # a computed key hides every entry written before it (it may be the same key at run time)
     "{'a': 1, k: 2}['a']", "{k: 2, 'a': 1}['a']", "{'a': 1, k: 2}.a", "Select(ds, lambda e: {'a': e.a, ('a' if e.b > 0 else 'z'): e.b}['a'])",
     "Select(Select(ds, lambda e: {'a': e.a, ('a' if e.b > 0 else 'z'): e.met}), lambda d: d.a + d['a'])",
